@@ -1,7 +1,8 @@
-(* C10  I-vectors are posterior means; covariance floor; EM monotonicity for a rank-1 subspace, with fixed covariances and with
-   covariance updating (no floor active); rank > 1: numerical evidence only, see DESIGN.md - partial. *)
+(* C10  I-vectors are posterior means; covariance floor; EM monotonicity for a subspace of ANY dimension with fixed covariances
+   and with covariance updating while no floor is active (ln det through a Cholesky factor, no determinant theory); the rank-1 theorems
+   (scalar i-vector, solver used on 1x1 matrices only) are kept as the special case with closed-form EM steps. *)
 From Coq Require Import Reals List.
-From BLE Require Import Num.InstR Model.IVector Proofs.RLemmas Proofs.IVectorR Proofs.JFARank1 Proofs.IVRank1 Proofs.IVRank1Sigma.
+From BLE Require Import Num.InstR Model.IVector Proofs.RLemmas Proofs.IVectorR Proofs.JFARank1 Proofs.IVRank1 Proofs.IVRank1Sigma Proofs.IVGeneral Proofs.IVGeneralSigma.
 Import ListNotations IR.
 Open Scope R_scope.
 
@@ -84,3 +85,71 @@ Theorem C10_rank1_training_iteration_with_sigma_monotone (inv : list (list R) ->
   iv_marginal2 D m (iv_T m) (iv_sigma m) X <= iv_marginal2 D m (iv_T m') (iv_sigma m') X.
 Proof. exact (iv_em_sigma_monotone_rank1 inv C D floor m X). Qed.
 Print Assumptions C10_rank1_training_iteration_with_sigma_monotone.
+
+(* Any dimension t of the total-variability subspace, fixed covariances (update_sigma = False): one training iteration (E-step over the
+   training statistics, then the code's M-step, which solves T_c A_c = B_c) never lowers the marginal likelihood of the training
+   statistics  sum_s [ 1/2 b_s' P_s^-1 b_s - 1/2 ln det P_s ]  (the i-vector of every utterance integrated out), where
+   ln det P = 2 sum_i ln L_ii for a Cholesky factor L of P supplied, like the inverse, by an oracle under a contract.
+   The engine is the Gaussian KL inequality proved without determinants:  ln det B - ln det A <= tr(A^-1 B) - t. *)
+Theorem C10_log_det_kl_inequality (t : nat) (A B L K S : list (list R)) :
+  chol_fact t L A -> chol_fact t K B ->
+  length S = t -> Forall (fun r => length r = t) S -> (forall v, length v = t -> V.matvec A (V.matvec S v) = v) ->
+  2 * rsum (map (fun i => ln (nth i (nth i K []) 0)) (seq 0 t)) - 2 * rsum (map (fun i => ln (nth i (nth i L []) 0)) (seq 0 t))
+  <= rsum (map (fun i => nth i (nth i (V.matmul t S B) []) 0) (seq 0 t)) - INR t.
+Proof. exact (logdet_kl t A B L K S). Qed.
+Print Assumptions C10_log_det_kl_inequality.
+
+Theorem C10_training_iteration_monotone_any_dimension (inv chol : list (list R) -> list (list R)) (C D t : nat) (floor : R) (m : ivm) (X : list gstat) :
+  ivm_ok C D t m -> Forall (IVectorR.gstat_ok C D) X ->
+  oracles_ok inv chol t m X ->
+  let st := e_step inv C D t m X in
+  (forall c, (c < C)%nat -> mat_any (nth c (a_w2 st) []) = true /\ inv_ok inv t (V.transpose t (nth c (a_w2 st) []))) ->
+  let m' := m_step inv D t false floor m st in
+  oracles_ok inv chol t m' X ->
+  iv_marginal_t inv chol t m X <= iv_marginal_t inv chol t m' X.
+Proof. exact (iv_em_monotone_general inv chol C D t floor m X). Qed.
+Print Assumptions C10_training_iteration_monotone_any_dimension.
+
+Theorem C10_training_entry_point_monotone_any_dimension (inv chol : list (list R) -> list (list R)) (C D t : nat) (floor : R) (m m' : ivm) (X : list gstat) :
+  ivm_ok C D t m -> Forall (IVectorR.gstat_ok C D) X ->
+  oracles_ok inv chol t m X ->
+  (forall c, (c < C)%nat -> mat_any (nth c (a_w2 (e_step inv C D t m X)) []) = true
+                            /\ inv_ok inv t (V.transpose t (nth c (a_w2 (e_step inv C D t m X)) []))) ->
+  em_iter inv C D t false floor [X] m = Some m' ->
+  oracles_ok inv chol t m' X ->
+  iv_marginal_t inv chol t m X <= iv_marginal_t inv chol t m' X.
+Proof. exact (iv_em_iter_monotone_general inv chol C D t floor m m' X). Qed.
+Print Assumptions C10_training_entry_point_monotone_any_dimension.
+
+Example C10_cholesky_contract_is_satisfiable : chol_fact 2 [[2; 0]; [1; 3]] [[4; 2]; [2; 10]].
+Proof. exact chol_fact_example. Qed.
+
+(* Any dimension t WITH covariance updating (update_sigma = True), no floor active: the iteration never lowers the marginal likelihood of the
+   training statistics as a function of the pair (T, sigma),
+     sum_s [ 1/2 b_s' P_s^-1 b_s - 1/2 ln det P_s - 1/2 sum_cd ( N_sc ln sigma_cd + Q_scd / sigma_cd ) ]. *)
+Theorem C10_training_iteration_with_sigma_monotone_any_dimension (inv chol : list (list R) -> list (list R)) (C D t : nat) (floor : R) (m : ivm) (X : list gstat) :
+  ivm_ok C D t m -> Forall (IVectorR.gstat_ok C D) X -> 0 < floor ->
+  oracles_ok inv chol t m X ->
+  let st := e_step inv C D t m X in
+  (forall c, (c < C)%nat -> mat_any (nth c (a_w2 st) []) = true /\ inv_ok inv t (V.transpose t (nth c (a_w2 st) []))) ->
+  Forall (fun n => 0 < n) (a_n st) ->
+  let m' := m_step inv D t true floor m st in
+  Forall (Forall (fun v => floor < v)) (iv_sigma m') ->
+  oracles_ok inv chol t m' X ->
+  iv_mu m' = iv_mu m
+  /\ iv_marginal2_t inv chol t m X <= iv_marginal2_t inv chol t m' X.
+Proof. exact (iv_em_sigma_monotone_general inv chol C D t floor m X). Qed.
+Print Assumptions C10_training_iteration_with_sigma_monotone_any_dimension.
+
+Theorem C10_training_entry_point_with_sigma_monotone_any_dimension (inv chol : list (list R) -> list (list R)) (C D t : nat) (floor : R) (m m' : ivm) (X : list gstat) :
+  ivm_ok C D t m -> Forall (IVectorR.gstat_ok C D) X -> 0 < floor ->
+  oracles_ok inv chol t m X ->
+  (forall c, (c < C)%nat -> mat_any (nth c (a_w2 (e_step inv C D t m X)) []) = true
+                            /\ inv_ok inv t (V.transpose t (nth c (a_w2 (e_step inv C D t m X)) []))) ->
+  Forall (fun n => 0 < n) (a_n (e_step inv C D t m X)) ->
+  em_iter inv C D t true floor [X] m = Some m' ->
+  Forall (Forall (fun v => floor < v)) (iv_sigma m') ->
+  oracles_ok inv chol t m' X ->
+  iv_marginal2_t inv chol t m X <= iv_marginal2_t inv chol t m' X.
+Proof. exact (iv_em_iter_sigma_monotone_general inv chol C D t floor m m' X). Qed.
+Print Assumptions C10_training_entry_point_with_sigma_monotone_any_dimension.
